@@ -33,6 +33,7 @@ func init() {
 			ruleReadersWriteNothing(c, "R10", "tree", "router")
 			rulePatternsEnterThroughTheParser(c, "R11")
 			ruleCharClasses(c, "R12", "syntax.MatchDigit", "syntax.MatchWord")
+			ruleConfiguredInterceptorsUsed(c, "R13")
 		},
 	})
 }
